@@ -21,7 +21,11 @@ def build_case(cid, rng):
     # several elided references
     extra = rng.choice([None, None, ("&'a str", "s.len() as u64", '"abc"'), ("&'a str", "s.len() as u64", '"abc"'),
                         ("&[&str]", "s.len() as u64", '&["a", "bc"][..]'), ("(&str, &str)", "(s.0.len() + s.1.len()) as u64", '("a", "bc")'),
-                        ("&&str", "s.len() as u64", '&"abc"'), ("&::core::option::Option<&str>", "s.map(|x| x.len()).unwrap_or(0) as u64", '&::core::option::Option::Some("ab")')])
+                        ("&&str", "s.len() as u64", '&"abc"'), ("&::core::option::Option<&str>", "s.map(|x| x.len()).unwrap_or(0) as u64", '&::core::option::Option::Some("ab")'),
+                        # references to trait objects (the user's own `dyn` is copied into the generated signatures; nothing else may appear)
+                        ("&(dyn ::core::ops::Fn(u64) -> u64 + ::core::marker::Sync)", "s(2)", "&|v: u64| v + 1"),
+                        ("&(dyn ::core::any::Any + ::core::marker::Sync)", "(s.type_id() == ::core::any::TypeId::of::<u8>()) as u64", "&7u8"),
+                        ("&mut (dyn ::core::iter::Iterator<Item = u64> + ::core::marker::Send)", "s.next().unwrap_or(0)", "&mut (1u64..1000)")])
     with_lt = bool(extra) and "'a" in extra[0]
     no_send = is_async and rng.random() < 0.25
     G = "<'a>" if with_lt else ""
@@ -211,7 +215,7 @@ def run(tier, seed):
             if r["status"] != "end":
                 continue
             ids = set(tok.idents(generated_tokens(r)))
-            bad = ids & FORBIDDEN
+            bad = ids & (FORBIDDEN - ({"dyn"} if "dyn " in (c.meta.get("extra_param") or "") else set()))
             rep.bump("expansions_scanned")
             if bad:
                 rep.violation(c.id, "forbidden-token:" + ",".join(sorted(bad)), "statically delegating expansion contains %s" % sorted(bad))
